@@ -660,6 +660,11 @@ func (sa *Application) AddAllocationAsk(ask *Allocation) error {
 	if ask.IsAllocated() || resources.IsZero(ask.GetAllocatedResource()) {
 		return fmt.Errorf("invalid ask added to app %s: %v", sa.ApplicationID, ask)
 	}
+	// a failing application is only waiting for its placeholders to be released before it is removed: anything
+	// allocated for it now would be left behind on the node when the application moves to Failed
+	if sa.IsFailing() {
+		return fmt.Errorf("application %s is failing, ask %s not accepted", sa.ApplicationID, ask.GetAllocationKey())
+	}
 	if ask.createTime.Before(sa.submissionTime) {
 		sa.submissionTime = ask.createTime
 	}
